@@ -30,7 +30,10 @@ vlib.standard_check({
             "post-processed design is dumped with the simulator's value of every node at every cycle, and every node value is recomputed by the driver "
             "with Gatery.Nodes.evalNode from the values of its inputs (node_values_rechecked_with_lean_semantics); every register value at a sample point is "
             "recomputed with Gatery.Nodes.regEdge from the data/enable/reset-value and register values at the previous sample point "
-            "(register_transitions_rechecked_with_lean_semantics; the transition during which the reset is released is skipped)",
+            "(register_transitions_rechecked_with_lean_semantics; the transition during which the reset is released is skipped); "
+            "autonomous run: the Lean clocked simulator Gatery.Nodes.seqRun is run on both netlists from the stimulus alone (register state carried by the "
+            "model from cycle to cycle, restarted from the simulator's registers only where the reset changes) and every node value at every cycle is compared "
+            "with the reference simulator (seqrun_node_values_compared)",
     "trusted_base": ["Lean 4.33 kernel", "axioms: propext, Classical.choice, Quot.sound only (audited per theorem)",
                      "harness/c01.cpp + designgen.h + Driver/C01.lean", "gatery's ReferenceSimulator as the semantics of both circuits (its own correctness is C03/C04/C08)"],
     "level_text": "Lean theorems: congruence (one locally sound node replacement preserves F on every node value of any netlist; any number of "
@@ -38,7 +41,8 @@ vlib.standard_check({
                   "value-level soundness of the rewrites of seven optimisation passes for all four-state values; F is evaluated on implementation pin traces of generated designs at every pass boundary and at the end.",
     "extra_cov": lambda t: {"netlists_rechecked": t.get("netlists_rechecked", 0), "node_values_rechecked_with_lean_semantics": t.get("node_values_rechecked_with_lean_semantics", 0),
                             "register_transitions_rechecked_with_lean_semantics": t.get("register_transitions_rechecked_with_lean_semantics", 0),
-                            "register_transitions_with_enable": t.get("register_transitions_with_enable", 0)},
+                            "register_transitions_with_enable": t.get("register_transitions_with_enable", 0),
+                            "seqrun_node_values_compared": t.get("seqrun_node_values_compared", 0), "seqrun_cycles": t.get("seqrun_cycles", 0)},
     "assumptions": ["'run free of undefined values' = stimulus and every node output of the unprocessed circuit defined at every sample point",
                     "a design on which post-processing throws is counted (postprocess_threw), not judged"],
 })
